@@ -692,6 +692,9 @@ func TestRequest(t *testing.T) {
 
 // TestKeyFreshness: many dials from one seeding of the global source: every key is new.
 func TestKeyFreshness(t *testing.T) {
+	if !hx.Mine(0) {
+		return
+	}
 	c := dcfg{URL: "ws://example.org/", Seed: 7}
 	u, _ := url.Parse(c.URL)
 	d := c.dialer()
@@ -859,7 +862,10 @@ func TestDialURLGrid(t *testing.T) {
 	valid := respgen.Valid()
 	valid.Trailing = []byte{0x81, 0x01, 'x'}
 	for _, scheme := range []string{"ws", "wss"} {
-		for _, host := range hostPool {
+		for hi, host := range hostPool {
+			if !hx.Mine(hi) {
+				continue
+			}
 			for _, port := range []string{"", ":80", ":443", ":8080", ":1", ":65535"} {
 				for _, path := range pathPool {
 					for _, q := range []string{"", "?", "?x=1&y=%20"} {
@@ -994,11 +1000,13 @@ func TestVersionGrid(t *testing.T) {
 	n := 0
 	var rec func(s []byte) bool
 	rec = func(s []byte) bool {
-		n++
-		r := respgen.Valid()
-		r.Version = "HTTP/" + string(s)
-		if !runFixed(t, &c, r, nil) {
-			return false
+		if len(s) > 0 || hx.Mine(0) {
+			n++
+			r := respgen.Valid()
+			r.Version = "HTTP/" + string(s)
+			if !runFixed(t, &c, r, nil) {
+				return false
+			}
 		}
 		if len(s) == maxLen {
 			return true
@@ -1057,7 +1065,9 @@ func TestHeaderStateGrid(t *testing.T) {
 		func(g respgen.Line, w func(respgen.Line) respgen.Line) []respgen.Line { return nil },
 		func(g respgen.Line, w func(respgen.Line) respgen.Line) []respgen.Line { return []respgen.Line{g, g} },
 		func(g respgen.Line, w func(respgen.Line) respgen.Line) []respgen.Line { return []respgen.Line{g, w(g)} },
-		func(g respgen.Line, w func(respgen.Line) respgen.Line) []respgen.Line { return []respgen.Line{w(g), w(g)} },
+		func(g respgen.Line, w func(respgen.Line) respgen.Line) []respgen.Line {
+			return []respgen.Line{w(g), w(g)}
+		},
 	}
 	base := respgen.Valid()
 	wrongUp := func(l respgen.Line) respgen.Line { l.Value = "websocket2"; return l }
@@ -1120,6 +1130,9 @@ func TestTruncatedHeads(t *testing.T) {
 		}
 		full := len(r.Head(dummyKey))
 		for cut := 1; cut < full; cut++ {
+			if !hx.Mine(cut) {
+				continue
+			}
 			rc := r.Clone()
 			rc.Cut = cut
 			for _, sizes := range [][]int{nil, {1}, {7}} {
@@ -1296,4 +1309,95 @@ func FuzzDialerUpgrade(f *testing.F) {
 		f.Add(s)
 	}
 	f.Fuzz(fuzzOne)
+}
+
+// ---------------------------------------------------------------------------
+// self-check of the trusted base (model, renderer, parsers) on literal tables
+
+func TestModelSelfCheck(t *testing.T) {
+	fail := func(format string, args ...interface{}) { hx.Failf(t, nil, "harness self-check: "+format, args...) }
+	if a := respgen.Accept("dGhlIHNhbXBsZSBub25jZQ=="); a != "s3pPLMBiTxaQ9kYGzzhZRbK+xOo=" {
+		fail("Accept of the RFC 6455 sample key = %q", a)
+	}
+	for tok, want := range map[string]string{"101": "", "0101": "open:status:leading-zero", "100": "fail:status:value", "0:1": "fail:status:nondigit",
+		"9;": "fail:status:nondigit", "18446744073709551717": "fail:status:value", "": "fail:status:nondigit", "1010": "fail:status:value", "00000101": "open:status:leading-zero"} {
+		if got := respgen.ClassifyStatus(tok); got != want {
+			fail("ClassifyStatus(%q) = %q, want %q", tok, got, want)
+		}
+	}
+	for v, want := range map[string]string{"HTTP/1.1": "", "HTTP/1.2": "", "HTTP/1.10": "", "HTTP/1.0": "fail:version:minor<1", "HTTP/2.0": "fail:version:major",
+		"HTTP/1.:": "fail:version:form", "http/1.1": "fail:version:form", "HTTP/1": "fail:version:form", "HTTP/01.1": "open:version:leading-zero",
+		"HTTP/1.01": "open:version:leading-zero", "HTTP/1.00": "fail:version:minor<1", "HTTP/1.1.1": "fail:version:form", "HTTP/1.18446744073709551617": "open:version:huge-minor"} {
+		if got := respgen.ClassifyVersion(v); got != want {
+			fail("ClassifyVersion(%q) = %q, want %q", v, got, want)
+		}
+	}
+	type pl struct {
+		in   string
+		st   respgen.ListStatus
+		want []respgen.Ext
+	}
+	for _, c := range []pl{
+		{"x-a", respgen.ListOK, []respgen.Ext{{Name: "x-a"}}},
+		{`x-a; k=v; q="a b,;="; flag , y`, respgen.ListOK, []respgen.Ext{{Name: "x-a", Params: []respgen.Param{{Key: "k", Value: "v"}, {Key: "q", Value: "a b,;="}, {Key: "flag"}}}, {Name: "y"}}},
+		{"", respgen.ListEmpty, nil}, {"  ", respgen.ListEmpty, nil},
+		{"=x", respgen.ListBadName, nil}, {`"x-a"`, respgen.ListBadName, nil}, {"x-a, =y", respgen.ListBadName, nil}, {"x-a;;, @", respgen.ListBadName, nil},
+		{"x-a;", respgen.ListBadTail, nil}, {"x-a b", respgen.ListBadTail, nil}, {"x-a,", respgen.ListBadTail, nil}, {"x-a,,y", respgen.ListBadTail, nil},
+		{"x-a; k=\"unterminated", respgen.ListBadTail, nil}, {"x-a; k=\"e\\\"s\"", respgen.ListBadTail, nil}, {"x-a;\tk", respgen.ListBadTail, nil}, {"x-a; k = v", respgen.ListBadTail, nil},
+	} {
+		got, st := respgen.ParseOptionList(c.in)
+		if st != c.st || (st == respgen.ListOK && !respgen.SameExts(got, c.want)) {
+			fail("ParseOptionList(%q) = %v, %d; want %v, %d", c.in, got, st, c.want, c.st)
+		}
+	}
+	cfg := fuzzCfg
+	v := respgen.Valid()
+	if cl := respgen.Classify(v, cfg); cl.Verdict != respgen.MustSucceed || cl.Vector() != "" {
+		fail("canonical response classified %v %q", cl.Verdict, cl.Vector())
+	}
+	want := "HTTP/1.1 101 Switching Protocols\r\nUpgrade: websocket\r\nConnection: Upgrade\r\nSec-WebSocket-Accept: s3pPLMBiTxaQ9kYGzzhZRbK+xOo=\r\n\r\n"
+	if got := string(v.Render("dGhlIHNhbXBsZSBub25jZQ==")); got != want {
+		fail("canonical rendering = %q", got)
+	}
+	if lines, end, ok := respgen.SplitLines([]byte("a\r\nb\n\r\nrest")); !ok || end != 7 || len(lines) != 3 || lines[0] != "a" || lines[1] != "b" {
+		fail("SplitLines = %q %d %v", lines, end, ok)
+	}
+	if k, ok := respgen.KeyFromRequest([]byte("GET / HTTP/1.1\r\nHost: x\r\nsec-websocket-KEY:  abc \r\n\r\n")); !ok || k != "abc" {
+		fail("KeyFromRequest = %q %v", k, ok)
+	}
+	mod := func(f func(r *respgen.Response)) respgen.Class {
+		r := respgen.Valid()
+		f(r)
+		return respgen.Classify(r, cfg)
+	}
+	for name, c := range map[string]struct {
+		cl   respgen.Class
+		want respgen.Verdict
+	}{
+		"lf":            {mod(func(r *respgen.Response) { r.StatusLF = true }), respgen.MustSucceed},
+		"kelvin":        {mod(func(r *respgen.Response) { r.Lines[0].Value = "websoc\u212aet" }), respgen.MustFail},
+		"conn-list":     {mod(func(r *respgen.Response) { r.Lines[1].Value = "keep-alive, Upgrade" }), respgen.Open},
+		"no-accept":     {mod(func(r *respgen.Response) { r.Lines = r.Lines[:2] }), respgen.MustFail},
+		"raw+no-accept": {mod(func(r *respgen.Response) { r.Lines[2] = respgen.Line{Raw: "x"} }), respgen.Open},
+		"raw+status":    {mod(func(r *respgen.Response) { r.Lines[2] = respgen.Line{Raw: "x"}; r.Status = "200" }), respgen.MustFail},
+		"proto-ok": {mod(func(r *respgen.Response) {
+			r.Lines = append(r.Lines, respgen.Line{Name: "sec-websocket-protocol", Value: " chat "})
+		}), respgen.MustSucceed},
+		"proto-bad": {mod(func(r *respgen.Response) {
+			r.Lines = append(r.Lines, respgen.Line{Name: "Sec-WebSocket-Protocol", Pre: " ", Value: "Chat"})
+		}), respgen.MustFail},
+		"ext-unknown": {mod(func(r *respgen.Response) {
+			r.Lines = append(r.Lines, respgen.Line{Name: "Sec-WebSocket-Extensions", Pre: " ", Value: "x-a, x-c"})
+		}), respgen.MustFail},
+		"ext-case": {mod(func(r *respgen.Response) {
+			r.Lines = append(r.Lines, respgen.Line{Name: "Sec-WebSocket-Extensions", Pre: " ", Value: "X-A"})
+		}), respgen.Open},
+		"0101":     {mod(func(r *respgen.Response) { r.Status = "0101" }), respgen.Open},
+		"0101+bad": {mod(func(r *respgen.Response) { r.Status = "0101"; r.Lines[0].Value = "h2c" }), respgen.MustFail},
+		"cut":      {mod(func(r *respgen.Response) { r.Cut = 10 }), respgen.MustFail},
+	} {
+		if c.cl.Verdict != c.want {
+			fail("%s classified %v (%s), want %v", name, c.cl.Verdict, c.cl.Vector(), c.want)
+		}
+	}
 }
